@@ -156,7 +156,7 @@ func runMuxC(c MuxCase) error {
 }
 
 func TestTCPMuxConnect(t *testing.T) {
-	fx.Run(t, fx.Spec[MuxCase]{Prop: "C07", Name: "tcpmux_connect", Quick: 600, Thorough: 20000, Gen: genMuxC, Run: runMuxC,
+	fx.Run(t, fx.Spec[MuxCase]{Prop: "C07", Name: "tcpmux_connect", Journal: true, Quick: 600, Thorough: 20000, Gen: genMuxC, Run: runMuxC,
 		Class: func(c MuxCase) fx.Class { return fx.Class{NonTrivial: true, Fingerprint: fmt.Sprintf("%+v", c)} }})
 }
 
@@ -351,7 +351,7 @@ func runPl(c PlCase) error {
 func firstLine(b []byte) string { return strings.SplitN(string(b), "\r\n", 2)[0] }
 
 func TestClientPlugins(t *testing.T) {
-	fx.Run(t, fx.Spec[PlCase]{Prop: "C07", Name: "client_plugins", Quick: 160, Thorough: 6000, Gen: genPl, Run: runPl,
+	fx.Run(t, fx.Spec[PlCase]{Prop: "C07", Name: "client_plugins", Journal: true, Quick: 160, Thorough: 6000, Gen: genPl, Run: runPl,
 		Class: func(c PlCase) fx.Class {
 			return fx.Class{NonTrivial: true, Fingerprint: fmt.Sprintf("%+v", c), Labels: []string{"plugin=" + c.Plugin}}
 		}})
@@ -468,7 +468,7 @@ func runWeb(c WebCase) error {
 }
 
 func TestWebAPIs(t *testing.T) {
-	fx.Run(t, fx.Spec[WebCase]{Prop: "C07", Name: "web_apis", Quick: 240, Thorough: 6000, Gen: genWeb, Run: runWeb,
+	fx.Run(t, fx.Spec[WebCase]{Prop: "C07", Name: "web_apis", Journal: true, Quick: 240, Thorough: 6000, Gen: genWeb, Run: runWeb,
 		Class: func(c WebCase) fx.Class {
 			return fx.Class{NonTrivial: true, Fingerprint: fmt.Sprintf("%+v", c), Labels: []string{"side=" + c.Side}}
 		}})
